@@ -174,7 +174,7 @@ def operands(rnd, FST, ctx):
 MB = {'a': 'á', 'b': '日本', 'c': 'ç', 'x': 'ξ', 'k': 'к', 'v': 'ü'}
 MODE_SAMPLES_MORE = {
     'arguments': ['a, *b, c', 'a, b=1, /, c, *d, e=2, **f', 'a, b, /', '*, a, b=1', 'a: int, *b: str, **c: x'], 'arguments_lambda': ['a, *b, c', '*a, **k'],
-    '_arglikes': ['*a, b, *c, k=v, *d, **e', 'a, *not b'], 'Tuple': ['a, *b, c', '*a, *b'], 'pattern': ['a, *b, c', '[a, *b]', '{"k": a, "j": b, **c}', 'C(a, b, x=c)'],
+    '_arglikes': ['*a, b, *c, k=v, *d, **e', 'a, *not b', 'a, *b, c', '*b, c, x=1', 'a, *b, c, x=1, **k', '*b, c', 'a, b=1, *c, x, k=2'], 'Tuple': ['a, *b, c', '*a, *b'], 'pattern': ['a, *b, c', '[a, *b]', '{"k": a, "j": b, **c}', 'C(a, b, x=c)'],
     '_aliases': ['a.b.c', 'a.b.c as d, x.k.v'], 'Import_name': ['a.b.c', 'a.b.c.x'], '_Import_names': ['a.b.c, x.k', 'a.b.c'], '_withitems': ['a as b, c as (x, k)'],
     '_type_params': ['a: b, *c, **x'], '_comprehensions': ['for a in b if c for x in k'], '_decorator_list': ['@a.b.c\n@x(k)'],
 }
